@@ -32,6 +32,7 @@ ASSUMPTIONS = [
     "the server accepts exactly the credentials it is configured with",
 ]
 FLOORS = {"quick": {"connects": 18000, "connects-with-starttls": 3500,
+                    "connects-on-a-used-client": 3000,
                     "starttls:no-SASL-line-after-handshake": 200, "starttls:lists-differ": 1500, "mech:PLAIN": 600, "mech:LOGIN": 600,
                     "mech:OAUTHBEARER": 600, "mech:DIGEST-MD5": 600, "no-mechanism": 600},
           "thorough": {"connects": 1800000, "connects-with-starttls": 350000,
@@ -138,6 +139,20 @@ def run_shard(tier, shard, res: Result):
                             digest_realm=realm,
                             encodings=rng.choice(["quoted", "literal", "mixed"]))
             sess = mslab.Session(srv)
+            if rng.random() < 0.3:
+                # the same Client object was used before, against a server that announced
+                # everything and then refused / broke off: nothing of that may be remembered
+                res.count("connects-on-a-used-client")
+                how = rng.choice(["wrong-password", "auth-NO", "auth-BYE", "greeting-BYE", "ok"])
+                f0 = {"auth-verdict": how[5:]} if how.startswith("auth-") else (
+                    {"greeting": "BYE"} if how == "greeting-BYE" else {})
+                srv0 = ms.Server(users={b"someone": b"else"} if how != "ok" else users,
+                                 sasl=list(IMPLEMENTED), faults=f0, starttls=False)
+                sess.server = srv0
+                sess.call("connect", "someone" if how != "ok" else login,
+                          "x" if how != "ok" else pw)
+                sess.server = srv
+                sess.wire = ms.Wire()
             if i % 2:
                 out = sess.call("connect", login, pw, authz, False, authmech)
             else:
